@@ -236,3 +236,11 @@ def paramsRefusal (p : NodeParams) : Option String :=
 def paramsValidate (p : NodeParams) : Bool := (paramsRefusal p).isNone
 
 end SaoVerif
+
+/-! ### Input assumption of the C10 registration theorem (evaluated by the driver on every genesis: clause `rankInj`) -/
+namespace SaoVerif
+
+/-- the environment ranks every account it ranks below the default range and gives no rank twice -/
+def rankInjB (e : Env) : Bool := e.rank.all (fun x => x.2 < 1000000) && decide ((e.rank.map (·.2)).Nodup)
+
+end SaoVerif
